@@ -289,11 +289,26 @@ pub fn gen_world(r: &mut Rng) -> Vec<Tree> {
         ops.push(l(vec![n(101u8), n(tk), n(now), n(tprot), n(expire), n(ids[k]), z_tree(timeout), l(addrs), b(&user), b(&tkey)]));
         tk
     };
+    // a server that has been up for a while: its connect token table is full (or one short of full) of older tokens
+    let full_table = t0 >= 5 * SEC && r.chance(1, 6);
+    if full_table {
+        ops.push(l(vec![n(129u8), n(*r.pick(&[2047u64, 2048, 2048])), n(0u8), addr_tree(&stranger)]));
+    }
     let mut now = t0;
     for k in 0..nclients {
         ops.push(l(vec![n(160u8), n(k as u64), addr_tree(&caddr[k])]));
         let tk = new_token(r, &mut ops, k, now);
         ops.push(l(vec![n(102u8), n(k as u64), n(now), n(tk)]));
+    }
+    if full_table && nclients >= 2 {
+        // token 0 from its address, token 1 from its address, then token 0 again from the attacker's address:
+        // the table is full, so every new token replaces an entry; the newest bindings must survive
+        for k in [0u64, 1] {
+            ops.push(l(vec![n(103u8), n(k), n(250 * MS)]));
+            ops.push(l(vec![n(150u8), n(k), n(0u8), n(0u8), n(0u8), n(0u8)]));
+        }
+        ops.push(l(vec![n(151u8), n(0u8), n(0u8), addr_tree(&stranger), n(0u8), n(0u8), n(0u8)]));
+        ops.push(l(vec![n(116u8)]));
     }
     if nclients >= 2 && ids[0] == ids[1] && r.chance(2, 3) {
         // one user, two tokens for the same client id: both are presented, then the handshake of one address
@@ -323,7 +338,7 @@ pub fn gen_world(r: &mut Rng) -> Vec<Tree> {
                 (r.range(1, 4), r.below(12000), r.below(256))
             }
         };
-        let w: [u32; 25] = [14, 16, 14, 3, 3, 6, 9, 9, 5, 2, 2, 2, 3, 3, 3, 2, 10, 2, 2, 3, 4, 3, 4, 3, 2];
+        let w: [u32; 26] = [14, 16, 14, 3, 3, 6, 9, 9, 5, 2, 2, 2, 3, 3, 3, 2, 10, 2, 2, 3, 4, 3, 4, 3, 2, 3];
         match r.weighted(&w) {
             0 => {
                 // time passes for everybody (mostly), or for one endpoint only
@@ -462,6 +477,24 @@ pub fn gen_world(r: &mut Rng) -> Vec<Tree> {
                 ops.push(l(vec![n(155u8), n(k), n(k), n(r.range(0, 300))]));
             }
             23 => ops.push(l(vec![n(158u8), n(k), n(r.range(0, 300)), b(&r.bytes(300))])),
+            24 => {
+                // denied, admitted later, then the old denial arrives: the server is full when k asks, the slot frees,
+                // k gets in, and a datagram from the time of the refusal is delivered late
+                if nclients >= 2 {
+                    let other = (k + 1) % nclients as u64;
+                    ops.push(l(vec![n(115u8), n(1u8)]));
+                    ops.push(l(vec![n(170u8), n(other), n(4u8)]));
+                    ops.push(l(vec![n(103u8), n(k), n(250 * MS)]));
+                    ops.push(l(vec![n(150u8), n(k), n(0u8), n(0u8), n(0u8), n(0u8)]));
+                    ops.push(l(vec![n(113u8), n(ids[other as usize])]));
+                    ops.push(l(vec![n(170u8), n(k), n(4u8)]));
+                    for back in [r.range(2, 9), r.range(0, 12)] {
+                        ops.push(l(vec![n(152u8), n(k), n(back), n(0u8), n(0u8), n(0u8)]));
+                    }
+                    ops.push(l(vec![n(107u8), n(k)]));
+                    ops.push(l(vec![n(116u8)]));
+                }
+            }
             19 => {
                 // reflection: an endpoint's own datagrams come back to it
                 if r.chance(1, 2) {
@@ -469,6 +502,16 @@ pub fn gen_world(r: &mut Rng) -> Vec<Tree> {
                 } else {
                     ops.push(l(vec![n(157u8), n(k), n(r.below(4))]));
                 }
+            }
+            18 if full_table => {
+                // token k from its address, another client's token, then token k again from the attacker's address
+                let k2 = (k + 1) % nclients as u64;
+                ops.push(l(vec![n(103u8), n(k), n(250 * MS)]));
+                ops.push(l(vec![n(150u8), n(k), n(0u8), n(0u8), n(0u8), n(0u8)]));
+                ops.push(l(vec![n(103u8), n(k2), n(250 * MS)]));
+                ops.push(l(vec![n(150u8), n(k2), n(0u8), n(0u8), n(0u8), n(0u8)]));
+                ops.push(l(vec![n(151u8), n(k), n(0u8), addr_tree(&stranger), n(0u8), n(0u8), n(0u8)]));
+                ops.push(l(vec![n(116u8)]));
             }
             18 => {
                 // the attacker presents client k's request from its own address first
